@@ -334,6 +334,18 @@ fn run_spec(spec: &Spec, r: &mut CaseResult) {
                     cx.viol(s, format!("[{stage}] file {} -> {} bytes; {d}", prev_bytes.len(), bytes.len()));
                 }
             }
+            // a sub-chunk kind that carried data in the previous file must not vanish: this also
+            // covers sub-chunks the serialiser generated itself (not part of the builder input),
+            // whose loss the content comparison of parsed tiles cannot see
+            for (k, old_n) in prev_rep.sub_data.iter() {
+                if *old_n > 0 && rep.sub_data.get(k).copied().unwrap_or(0) == 0 {
+                    changed = true;
+                    cx.viol(
+                        format!("re-serialisation drops MCNK sub-chunk {k} although the previous file carried {k} data"),
+                        format!("[{stage}] {k}: {old_n} data bytes in {} MCNK chunks before, none after; file {} -> {} bytes", prev_rep.mcnk_count, prev_bytes.len(), bytes.len()),
+                    );
+                }
+            }
             let pn = match parse(&bytes) {
                 Ok(p) => p,
                 Err(e) => {
@@ -418,6 +430,29 @@ fn repro(name: &str) {
             let b1 = BuiltAdt::from_root_adt(r0, None).to_bytes().unwrap();
             let b2 = BuiltAdt::from_root_adt(p(&b1), None).to_bytes().unwrap();
             println!("round 1: {} bytes, round 2: {} bytes (expected: no growth)", b1.len(), b2.len());
+        }
+        "auto_mccv" => {
+            // D8: auto-generated MCNK chunks carry MCCV but not the has_mccv flag
+            for (path, f) in [
+                ("from_root_adt", (|r: RootAdt| BuiltAdt::from_root_adt(r, None).to_bytes().unwrap()) as fn(RootAdt) -> Vec<u8>),
+                ("from_parsed", |r: RootAdt| AdtBuilder::from_parsed(r).build().unwrap().to_bytes().unwrap()),
+            ] {
+                let b0 = AdtBuilder::new().with_version(AdtVersion::WotLK).add_texture("a.blp").build().unwrap().to_bytes().unwrap();
+                let w0 = walker::inspect(&b0);
+                let r0 = p(&b0);
+                let flag = r0.mcnk_chunks[0].header.flags.value;
+                let has = r0.mcnk_chunks.iter().filter(|m| m.vertex_colors.is_some()).count();
+                let b1 = f(r0);
+                let w1 = walker::inspect(&b1);
+                println!(
+                    "{path}: file {} -> {} bytes; MCCV data bytes {:?} -> {:?}; mcnk[0].flags={:#x}, ofs_mccv set, parsed chunks with vertex_colors: {has}/256",
+                    b0.len(),
+                    b1.len(),
+                    w0.sub_data.get("MCCV"),
+                    w1.sub_data.get("MCCV"),
+                    flag
+                );
+            }
         }
         "blend" => {
             // D1 (MoP variant): MTXP / MBMH / MBBB / MBNV / MBMI are read until end of file as well
